@@ -23,6 +23,9 @@ EXPLANATION = (
     "viewport again. "
     "Not decided: the geometry of generated documents; reify=True vs reify=False equality."
 )
+TECHNIQUE = (
+    "static analysis (no execution): attribute-key tables read off property_by_values vs keys removed from the inherited dictionary; path counting of push/pop over the statement structure; typestate order render-before-reify; axis/reference agreement in render methods"
+)
 ASSUMPTIONS = [
     "SVG 1.1 property index: fill, stroke, stroke-width, opacity properties, color, font properties, display (as subtree suppression) may propagate; transform is accumulated on purpose.",
     "href/xlink:href carried by use and vector-effect (not inherited in SVG 2) also propagate today; they are reported in the evidence notes but are outside the property's geometry vocabulary.",
